@@ -5,6 +5,7 @@ CONSTANTS
   Leaves <- L3
   MaxEv = 1
   MaxRcpt = 1
+  CodecStatuses = {"SUCCESS", "ERROR"}
   CumLens = {0, 1}
   NameChars = {0, 1}
   MaxName = 2
